@@ -101,6 +101,9 @@ type finding struct {
 	aspect string
 	kind   string
 	extra  string // further signature fields
+	obs    string // dispatch: the observation
+	got    string // slot-init: class of the observed state
+	shared bool   // slot-init: the wanted value comes from an initarg that names two slots
 	detail string
 }
 
@@ -170,17 +173,27 @@ func checkPrec(defs []classDef, i int, obs string) string {
 	return ""
 }
 
-// orderFor: the precedence order used for "most specific": the observed list
-// when it satisfies the statement (S3), else the canonical reading.
+// orderFor: the precedence order used for "most specific" and for which slots
+// exist: the OBSERVED list whenever it can be read (S3: a wrong precedence
+// list is reported once, as such), else the canonical reading.
 func orderFor(defs []classDef, i int, obs string) []int {
-	if checkPrec(defs, i, obs) == "" {
-		tok, _ := parsePrec(obs)
+	if tok, ok := parsePrec(obs); ok {
 		var out []int
-		for _, t := range tok[:len(tok)-2] {
-			j, _ := strconv.Atoi(t[1:])
+		good := true
+		for _, t := range tok {
+			if t == "standard-object" || t == "t" {
+				continue
+			}
+			j, err := strconv.Atoi(strings.TrimPrefix(t, "c"))
+			if err != nil || !strings.HasPrefix(t, "c") || j < 0 || len(defs) <= j {
+				good = false
+				break
+			}
 			out = append(out, j)
 		}
-		return out
+		if good && 0 < len(out) {
+			return out
+		}
 	}
 	return canonPrec(defs, i)
 }
@@ -397,6 +410,8 @@ func judgeFinal(defs []classDef, o obsMap) []finding {
 				add(sk, i, "slot-init", "wrong-state", extra,
 					fmt.Sprintf("(make-instance '%s%s): slot %s is %s, expected %s (%s; precedence %s)", cname(i), sigmaArgs(sigma), sl, got,
 						strings.Join(w.alts, " or "), w.src, precText(order)))
+				out[len(out)-1].got = gotClass(got)
+				out[len(out)-1].shared = w.src == "initarg" && shared == 2 && gotClass(got) != "initarg"
 			}
 			if len(sigma) != 0 {
 				continue
@@ -457,12 +472,13 @@ func judgeFinal(defs []classDef, o obsMap) []finding {
 				if dobs != want {
 					add(dk, i, "dispatch", dispatchKind(dobs, cname(i), listedClasses), "",
 						fmt.Sprintf("generic call on an instance of %s: %s; the precedence list %s requires %s", cname(i), dobs, pobs, want))
+					out[len(out)-1].obs = dobs
 				}
 			}
 		}
 		for _, sl := range slotNames {
 			ak := fmt.Sprintf("A|%d|%s", i, sl)
-			if aobs, has := o[ak]; has {
+			if aobs, has := o[ak]; has && expectSlot(defs, order, sl, nil).exists {
 				if kind, detail := judgeAccessor(aobs, sl); kind != "" {
 					add(ak, i, "accessor", kind, "slot-decl="+declRel(defs, i, sl),
 						fmt.Sprintf("reader/accessor/writer of slot %s on an instance of %s: %s (%s)", sl, cname(i), detail, aobs))
